@@ -9,7 +9,8 @@ Dbul == <<L(0, "* item one"), L(0, "* item two"), L(0, "")>>
 Dlit == <<L(0, "Example::"), L(0, ""), L(3, "literal(block) w"), L(0, "")>>
 Ddir == <<L(0, "intro w"), L(0, ""), L(0, ".. note::"), L(0, ""), L(3, "nested body w"), L(0, "")>>
 Dlead == <<L(0, ""), L(0, "late w"), L(0, "")>>
-Docs == {D1, D2, Dfield, Dbul, Dlit, Ddir, Dlead}
+Dnote == <<L(0, ".. note::"), L(0, ""), L(3, "only body w"), L(0, "")>>
+Docs == {D1, D2, Dfield, Dbul, Dlit, Ddir, Dlead, Dnote}
 SomeDocs == {D1, Ddir, Dlead}
 E == [k |-> "", name |-> "", args |-> <<>>, doc |-> D0, value |-> "", vtype |-> "", help |-> "", bases |-> <<>>,
       ctors |-> <<>>, members |-> <<>>, attrs |-> <<>>, inner |-> <<>>]
